@@ -32,4 +32,4 @@ def main(tier):
         'complete programs of the AstEnum builder machine over a header that uses constants as register size, alias '
         'bounds/index, gate argument, qubit index, loop count, subcircuit count, inside a macro and shadowed by a '
         'parameter, each crossed with the empty override and 7 override dictionaries over values {0,1,2,3,1.5,2.0}; '
-        'non-trivial = distinct programs that refer to a constant')
+        'non-trivial = distinct programs that refer to a constant', variants=('edge',))
